@@ -333,6 +333,22 @@ func MapW[M ~map[K]V, K comparable, V any](m M, pos string) {
 	mapAccessed(s, mapPtr(m), func() any { return m }, true, pos)
 }
 
+// ObjR / ObjW report a read / a modification of a container object (a *list.List) identified by its pointer.
+func ObjR(obj any, pos string) { objAccessed(obj, false, pos) }
+func ObjW(obj any, pos string) { objAccessed(obj, true, pos) }
+
+func objAccessed(obj any, write bool, pos string) {
+	s := active.Load()
+	if s == nil || s.hb == nil {
+		return
+	}
+	v := reflect.ValueOf(obj)
+	if v.Kind() != reflect.Pointer || v.IsNil() {
+		return
+	}
+	mapAccessed(s, v.UnsafePointer(), func() any { return obj }, write, pos)
+}
+
 func mapAccessed(s *Sim, p unsafe.Pointer, keep func() any, write bool, pos string) {
 	id := goid()
 	s.mu.Lock()
